@@ -147,6 +147,15 @@ fn c07_child(tier: &str) -> i32 {
 /// C10 with the reply streams the library itself provides (`notified::State` / `Once` of zlink-tokio
 /// and zlink-smol) behind the real `Server::run` (child of the C10 check).  Prints one JSON line.
 fn c10_child(tier: &str) -> i32 {
+    state_service_child(tier, false)
+}
+
+/// The hang-up phases alone (child of the C09 check).
+fn c09_child(tier: &str) -> i32 {
+    state_service_child(tier, true)
+}
+
+fn state_service_child(tier: &str, only_hangups: bool) -> i32 {
     use statesvc::{StateScen, B};
     let cfg = Config { max_wall: std::time::Duration::from_secs(tier_pick(tier, 60, 900)), budget: 1, ..Default::default() };
     let th = tier == "thorough";
@@ -156,8 +165,13 @@ fn c10_child(tier: &str) -> i32 {
         let plans = vec![
             (format!("{name}/notified-state-service/<=2conns/4events"), StateScen { smol, max_conns: 2, max_events: 4, bursts: vec![B::Watch, B::Get, B::Sets(1), B::Sets(2), B::Sets(9), B::Sets(12), B::OnceGet], delay_polls: true }),
             (format!("{name}/notified-state-service/<=3conns/{}events", if th { 5 } else { 4 }), StateScen { smol, max_conns: 3, max_events: if th { 5 } else { 4 }, bursts: vec![B::Watch, B::Sets(1), B::Sets(10), B::OnceGet], delay_polls: th }),
+            // subscribers that hang up: the state's other subscribers, later subscriptions and the callers of Set are owed what they were owed before
+            (format!("{name}/notified-state-service/subscribers-that-hang-up/<=3conns/{}events", if th { 6 } else { 5 }), StateScen { smol, max_conns: 3, max_events: if th { 6 } else { 5 }, bursts: vec![B::Watch, B::Sets(1), B::Sets(2), B::Hangup], delay_polls: true }),
         ];
         for (pname, h) in plans {
+            if only_hangups && !h.bursts.contains(&B::Hangup) {
+                continue;
+            }
             let st = explore(&pname, h.to_json(), &h, &cfg);
             eprintln!("[C10 child] phase {pname}: {} executions, {} violation classes, {:.1}s", st.evals, st.violations.len(), st.wall);
             phases.push(st);
@@ -393,6 +407,7 @@ fn main() {
         Some("c20") => run_c20(&tier),
         Some("c07-child") => c07_child(&tier),
         Some("c10-child") => c10_child(&tier),
+        Some("c09-child") => c09_child(&tier),
         Some("c03-child") => c03_child(&tier),
         Some("c02-child") => c02_child(&tier),
         Some("c08-child") => realsrv_child(&tier, false),
